@@ -692,6 +692,30 @@ def extract_payload_fields():
     return sorted(payload), sorted(restored & payload)
 
 
+def apalache_inductive(verdict, tier, seed):
+    """Unbounded safety of the adaptive controller: Apalache discharges the inductive invariant of
+    spec/apalache/TemperingInd.tla for symbolic K, tolerance, floor and cap (thorough tier)."""
+    import subprocess
+    if tier == "quick":
+        return {}
+    wd = workdir("apalache")
+    obligations = [("Init => IndInv", ["--init=Init", "--inv=IndInv", "--length=0"]),
+                   ("IndInv /\\ Next => IndInv'", ["--init=IndInit", "--inv=IndInv", "--length=1"]),
+                   ("IndInv => Safety", ["--init=IndInit", "--inv=Safety", "--length=0"])]
+    done = []
+    try:
+        for name, args in obligations:
+            p = subprocess.run(["apalache-mc", "check", "--cinit=ConstInit", *args, f"--out-dir={wd}", "TemperingInd.tla"],
+                               cwd=common.SPEC / "apalache", capture_output=True, text=True, timeout=1800)
+            ok = "The outcome is: NoError" in p.stdout
+            done.append({"obligation": name, "discharged": ok})
+            if not ok:
+                raise MachineryError(f"Apalache did not discharge '{name}':\n" + p.stdout[-1500:])
+    finally:
+        cleanup(wd)
+    return {"apalache_inductive_invariant": done}
+
+
 def e1_smcrun(tier):
     """SMCRun.tla exhaustive, with PayloadFields / RestoredFields extracted from the working tree."""
     payload, restored = extract_payload_fields()
@@ -1053,7 +1077,7 @@ def rule_default(g, r, fin):
 
 
 CHECKS = {
-    "C06": dict(corpus=corpus_schedule, e1=[e1_tempering]),
+    "C06": dict(corpus=corpus_schedule, e1=[e1_tempering], extra=apalache_inductive),
     "C07": dict(corpus=corpus_schedule, e1=[e1_tempering]),
     "C08": dict(corpus=lambda t, s, r: corpus_general(t, s, r, 200 if t == "quick" else 3000)
                 + [dict(x, id="v" + x["id"]) for x in corpus_variants(t, s, r)]
